@@ -339,16 +339,61 @@ func runC03(c *engine.Ctx) {
 		}
 		n++
 		okKeys := len(keys) >= 3
+		allBind := map[*ssa.Parameter]ssa.Value{}
+		for _, sc := range scope {
+			for pr, a := range sc.bind {
+				allBind[pr] = a
+			}
+		}
+		// closures of the forwarder that are called (or started with `go`) through the local variable that holds them
+		for _, sc := range scope {
+			engine.ForEachInstr(sc.g, func(in ssa.Instruction) {
+				call, ok := in.(ssa.CallInstruction)
+				if !ok || call.Common().IsInvoke() || engine.CalleeFn(call) != nil {
+					return
+				}
+				mc, ok := capturedOrigin(call.Common().Value).(*ssa.MakeClosure)
+				if !ok {
+					return
+				}
+				cf, ok := mc.Fn.(*ssa.Function)
+				if !ok {
+					return
+				}
+				for k, pr := range cf.Params {
+					if k < len(call.Common().Args) {
+						allBind[pr] = call.Common().Args[k]
+					}
+				}
+			})
+		}
 		for _, k := range keys {
 			src := engine.Provenance(k, engine.ProvOpts{})
 			strCall := false
+			hasRemote, hasRaddr := src.HasField(remoteF), src.HasParam("raddr")
 			for o := range src.Calls {
 				if o.Name() == "String" {
 					strCall = true
 				}
 			}
+			// a key handed to the writer as a parameter (the address formatted once by the caller)
+			for pr := range src.Params {
+				if b, isStr := pr.Type().Underlying().(*types.Basic); !isStr || b.Kind() != types.String {
+					continue // only a key that is itself handed in as a string
+				}
+				if a, ok := allBind[pr]; ok {
+					s2 := engine.Provenance(a, engine.ProvOpts{})
+					for o := range s2.Calls {
+						if o.Name() == "String" {
+							strCall = true
+						}
+					}
+					hasRemote = hasRemote || s2.HasField(remoteF)
+					hasRaddr = hasRaddr || s2.HasParam("raddr")
+				}
+			}
 			// the key is <something>.RemoteAddr.String() or the writer's raddr.String()
-			if !(strCall && (src.HasField(remoteF) || src.HasParam("raddr"))) {
+			if !(strCall && (hasRemote || hasRaddr)) {
 				okKeys = false
 			}
 		}
@@ -657,6 +702,55 @@ func runC03(c *engine.Ctx) {
 			c.Check(received, fmt.Sprintf("%s>close-signal#%d", p.FuncName(f), n9), mk.Pos(), len(seen), nil,
 				"the channel created here is closed as a signal and some goroutine receives from it")
 		})
+	}
+	// the same signal written with a cancellable context: WithCancel created here, cancelled somewhere in the function's
+	// family, and its Done() channel received from somewhere in the family
+	for _, f := range p.RepoFuncs() {
+		if f.Parent() != nil || f.Pkg == nil || !(strings.HasSuffix(f.Pkg.Pkg.Path(), "/client/visitor") || strings.HasSuffix(f.Pkg.Pkg.Path(), "/client/proxy") || strings.HasSuffix(f.Pkg.Pkg.Path(), "/server/proxy") || strings.HasSuffix(f.Pkg.Pkg.Path(), "/pkg/proto/udp")) {
+			continue
+		}
+		family := append([]*ssa.Function{f}, lexicalAnon(f)...)
+		if len(family) < 2 {
+			continue
+		}
+		made, cancelled, waited := false, false, false
+		for _, g := range family {
+			engine.ForEachInstr(g, func(in ssa.Instruction) {
+				call, ok := in.(ssa.CallInstruction)
+				if !ok {
+					return
+				}
+				if o := engine.CalleeObj(call); o != nil && o.Pkg() != nil && o.Pkg().Path() == "context" && o.Name() == "WithCancel" {
+					if g == f {
+						made = true
+					}
+				}
+				if call.Common().IsInvoke() && call.Common().Method.Name() == "Done" && engine.IsNamed(call.Common().Value.Type(), "context", "Context") {
+					if v := call.Value(); v != nil && v.Referrers() != nil {
+						for _, r := range *v.Referrers() {
+							switch x := r.(type) {
+							case *ssa.Select:
+								waited = true
+							case *ssa.UnOp:
+								if x.Op == token.ARROW {
+									waited = true
+								}
+							}
+						}
+					}
+				}
+				if !call.Common().IsInvoke() && engine.CalleeFn(call) == nil {
+					if engine.IsNamed(call.Common().Value.Type(), "context", "CancelFunc") {
+						cancelled = true
+					}
+				}
+			})
+		}
+		if made && cancelled {
+			n9++
+			c.Check(waited, fmt.Sprintf("%s>close-signal-ctx", p.FuncName(f)), f.Pos(), 3, nil,
+				"the cancellable context created here is cancelled as a signal and some goroutine of the function waits on its Done()")
+		}
 	}
 	c.Floor(n9, 1)
 
